@@ -1,10 +1,12 @@
 """C19, line level (audit round 7, items C5 / C4): replays on the real FileLogger with a line-based oracle,
 compared with the Lean model under the COMMITTED shapes (Cfg.oneWrite = fix F46 = /repo 85f4c48, Cfg.sealsTail = fix
-F47 = /repo efaf20c: both `true`; the probes on the real router()/updateFile() must say so too - audit B12).
-Round 11 (F47b): `sealTornTail` may have one of exactly two shapes - committed (a failed READ of the last byte is an
-error = exit; Cfg.sealReadWarns = false) or the proposed follow-up F47b (warning, append unsealed; true). Which one is
-read off the regenerated skeleton (`seal_read_warns_from_gen`, = Nsq.Tie.ToolsToFile.sealReadWarns), the model is replayed
-with it, and the probe on the real updateFile() (`vfE8ProbeSealReadWarns`) must agree.
+F47 = /repo efaf20c, Cfg.sealReadWarns = follow-up F47b = /repo 73f7348: all three `true`; the probes on the real
+router()/updateFile() must say so too - audit B12).
+Round 11 (F47b committed): `sealTornTail` has exactly ONE accepted shape - a failed READ of the last byte is a warning and
+the file is appended to unsealed (Cfg.sealReadWarns = true). The regenerated skeleton (`seal_read_warns_from_gen`,
+= Nsq.Tie.ToolsToFile.sealReadWarns) and the probe on the real updateFile() (`vfE8ProbeSealReadWarns`) must both say 1;
+the model is always replayed with 1, so a tree with F47b reverted (skeleton 0 = F47 alone: that read failure is fatal)
+is named: broken tie, probe 0, and the unreadable-file scenarios disagree with the model.
 Harness: harness/e8/tofile_lines_test.go. Theorems: Nsq.Props.C19Lines."""
 import os
 import re
@@ -31,8 +33,9 @@ SEAL_COMMITTED = ['r, err := os.Open(name)', 'if err != nil', '.return err', 'de
 
 
 def seal_read_warns_from_gen(txt=None):
-    """0 = the regenerated skeleton of sealTornTail is the committed one (/repo efaf20c), 1 = the one of F47b (the two READ
-    failures `return nil`), None = neither (then Tie.ToolsToFile.updateFile_eq fails too)"""
+    """1 = the regenerated skeleton of sealTornTail is the committed one (F47b = /repo 73f7348: the two READ failures
+    `return nil`), 0 = the one of F47 = /repo efaf20c alone (F47b reverted - no longer accepted, kept so that a revert is
+    named), None = neither. Tie.ToolsToFile.updateFile_eq / tree_seal_read_warns hold only for 1."""
     if txt is None:
         try:
             txt = open(os.path.join(fw.LEAN, "Nsq", "Gen", "ToolsToFile.lean")).read()
@@ -50,11 +53,10 @@ def seal_read_warns_from_gen(txt=None):
 def committed_shape_ops(src, dst, srw_seen=None):
     """`tf conf … <closeClears> <oneWrite> <sealsTail> [<sealReadWarns>]`: the harness writes what it PROBED on the real code;
     the model is run with the committed values oneWrite = sealsTail = 1 (F46, F47), so a tree that reverts one of them
-    disagrees with the model line by line, and (round 11) with sealReadWarns = the shape of the REGENERATED skeleton of
-    sealTornTail (0 committed / 1 F47b; neither: 0). closeClears (fix F44, NOT committed: a proposal) stays as probed.
+    disagrees with the model line by line, and (round 11, F47b = /repo 73f7348 committed) with sealReadWarns = 1 whatever
+    was probed or regenerated. closeClears (fix F44, NOT committed: a proposal) stays as probed.
     Returns the probed (oneWrite, sealsTail) pairs seen; the probed sealReadWarns values go to `srw_seen`."""
     seen = set()
-    srw = seal_read_warns_from_gen()
     with open(dst, "w") as fh:
         for o in open(src).read().splitlines():
             w = o.split(" ")
@@ -64,7 +66,7 @@ def committed_shape_ops(src, dst, srw_seen=None):
                 if len(w) >= 13:
                     if srw_seen is not None:
                         srw_seen.add(w[12])
-                    w[12] = "1" if srw == 1 else "0"
+                    w[12] = "1"
                 o = " ".join(w)
             fh.write(o + "\n")
     return seen
@@ -84,12 +86,14 @@ def lines_leg(ctx, parent, corr_broken):
     srw_probe, inject = (int(mp.group(3)), mp.group(4)) if mp else (-1, "?")
     gen = shapes_from_gen()
     srw = gen["seal_read_warns"] if gen else None
-    shape = {0: "committed F47 (/repo efaf20c): a failed read of the last byte is fatal", 1: "F47b: a failed read is a warning, the file is appended to unsealed"}.get(srw, "unknown")
+    shape = {0: "F47 (/repo efaf20c) alone, F47b reverted: a failed read of the last byte is fatal (NOT accepted)",
+             1: "F47b (/repo 73f7348, committed): a failed read is a warning, the file is appended to unsealed"}.get(srw, "unknown")
     ctx.corr["lines_probe"] = {"one_write": one_write, "seals_tail": seals, "seal_read_warns": srw_probe, "unreadable_file_injected_by": inject,
                                "regenerated_skeleton": gen, "sealTornTail_shape": shape}
-    if srw is None or srw_probe != srw:
+    if srw != 1 or srw_probe != 1:
         corr_broken.append("sealTornTail on an unreadable file: probe on the real updateFile() says %s (%s), regenerated skeleton says %s; "
-                           "accepted: committed F47 (0) or F47b (1), probe = skeleton" % (srw_probe, inject, srw))
+                           "accepted: only F47b = /repo 73f7348 (1) for both (0 = F47 alone: the tool exits on a file it cannot read)"
+                           % (srw_probe, inject, srw))
     if gen is None or not (gen["one_write"] and gen["seals_tail"] and one_write and seals):
         corr_broken.append("line-level shapes: probe on the real router()/updateFile() (one_write=%s seals_tail=%s), regenerated "
                            "skeleton (%s); expected one_write = seals_tail = true everywhere (F46 85f4c48, F47 efaf20c)"
@@ -132,19 +136,21 @@ def lines_leg(ctx, parent, corr_broken):
                    "warned": "log-WARNING" in notes, "fatal_logged": "log-FATAL" in notes}
             ctx.corr.setdefault("unreadable_file", []).append(row)
             died = r["exits"] == "1" and any(n.startswith("fatal-in=") for n in notes)
-            if srw == 0:
-                # committed F47: the read of the last byte of a non-empty file fails -> FATAL, exit 1 in the first event, nothing FINished
-                want = (died and fins == "" and ("log-FATAL" in notes or r["case"].startswith("gen-"))) if nonempty else (r["exits"] == "0" and r["owns"] == "true")
-                row["verdict"] = "fatal exit before any FIN (fin_owns_line_committed has nothing to excuse)" if nonempty else "empty file: not read, appended to"
-                if not want:
-                    corr_broken.append("lines scenario %s on the committed shape of sealTornTail: expected %s, got exits=%s fins=%r notes=%s"
-                                       % (r["case"], "FATAL + exit 1 + no FIN" if nonempty else "a normal run", r["exits"], fins, notes))
-            elif srw == 1:
+            if srw != 1:
+                # F47b reverted (or neither shape): no verdict of its own - the tie and the probe are already reported broken,
+                # the model (always the F47b shape) disagrees line by line, and a FIN without an own line falls through to
+                # the VIOLATION below (no readability hypothesis is in force for a tree that is not the accepted one)
+                row["verdict"] = "not the accepted shape of sealTornTail (%s)" % ("fatal exit" if died else "no fatal exit")
+                if died:
+                    corr_broken.append("lines scenario %s: nsq_to_file exited (os.Exit(1) in updateFile) on an existing file it may write "
+                                       "but not read (mode 0222) - the behaviour F47b = /repo 73f7348 repaired; fins=%r tree=%s"
+                                       % (r["case"], fins, r["tree"]))
+            else:
                 if r["exits"] != "0" or (nonempty and "log-WARNING" not in notes and not r["case"].startswith("gen-")):
                     corr_broken.append("lines scenario %s on the F47b shape of sealTornTail: expected a WARN and a normal run, got exits=%s notes=%s"
                                        % (r["case"], r["exits"], notes))
                 if torn and r["owns"] != "true":
-                    # NOT a violation of what is claimed for this tree: fin_owns_line_this_tree carries ReadsOk on the F47b shape
+                    # NOT a violation of what is claimed for this tree: fin_owns_line_this_tree_partial carries ReadsOk
                     row["verdict"] = ("witnessed hypothesis boundary: the torn tail of a file the tool cannot read is appended to "
                                       "(Lean: Props.C19Lines.unreadable_torn_file_witness, fin_owns_line_F47b_full_false); the claim for "
                                       "this tree carries `every existing file the tool appends to is readable by it`")
@@ -177,7 +183,7 @@ def lines_leg(ctx, parent, corr_broken):
                     "are not a line of any file (Lean: Props.C19Lines.fin_owns_line_full_false; with fix F47 fin_owns_line_fixed)" % missing)
             if unreadable:
                 what += (" [the file is write-only for the tool and the regenerated sealTornTail has %s: no readability hypothesis excuses this]"
-                         % ("the committed shape" if srw == 0 else "neither accepted shape"))
+                         % ("the shape of F47 alone (F47b reverted)" if srw == 0 else "not the accepted shape"))
         ctx.violation(key, what, replay)
     ctx.corr["lines"] = rows
     if len([r for r in rows if not r["case"].startswith("gen-")]) < 10:
